@@ -222,5 +222,20 @@ TypeOK == /\ dead \subseteq Objs /\ roots \subseteq Objs /\ roots \cap dead = {}
 \* registry and heap agree: every live tracked object has exactly one node
 RegistryComplete == \A o \in tracked \cap Alive : Registered(o)
 
+\* ---- directed generator for C14 / C20: build, destroy, sweep, rebuild (the phases of "whatever lived and died before")
+RECURSIVE PhaseAfter(_, _, _)
+PhaseAfter(hist, k, ph) ==
+  IF k > Len(hist) THEN ph
+  ELSE LET a == hist[k].a IN
+       CASE ph = 1 -> IF a \in {"create", "relate"} THEN PhaseAfter(hist, k + 1, 1)
+                      ELSE IF a = "drop" THEN PhaseAfter(hist, k + 1, 2) ELSE 0
+         [] ph = 2 -> IF a \in {"drop", "collect"} THEN PhaseAfter(hist, k + 1, 2)
+                      ELSE IF a \in {"sweep", "query"} THEN PhaseAfter(hist, k + 1, 3) ELSE 0
+         [] ph = 3 -> IF a = "create" THEN PhaseAfter(hist, k + 1, 4) ELSE 0
+         [] ph = 4 -> IF a \in {"create", "relate", "query"} THEN PhaseAfter(hist, k + 1, 4) ELSE 0
+         [] OTHER -> 0
+Phased == PhaseAfter(h, 1, 1) # 0
+EmitPhased == IF Hist /\ PhaseAfter(h, 1, 1) = 4 /\ h[Len(h)].a = "relate" THEN PrintT(ToJson(h)) ELSE TRUE
+
 Emit == IF Hist /\ steps = MaxSteps THEN PrintT(ToJson(h)) ELSE TRUE
 ====
